@@ -70,6 +70,7 @@ PROPS = {
     'C07': dict(
         title='subscriptions() returns every applicable subscriber, with multiplicity, in order',
         contracts=['C04_lookup', 'C09_registry', 'C04_extendors'], falsifier='C07', modes=['py', 'c'], level='other',
+        cfun=['C05_c'], cfun_only={'C05_c': ['_subcache', '_subscriptions']},
         only={'C04_lookup': ['adapter.py:_subscriptions'],
               'C04_extendors': ['adapter.py:AdapterLookupBase.add_extendor', 'adapter.py:AdapterLookupBase.remove_extendor'],
               'C09_registry': ['adapter.py:BaseAdapterRegistry.subscribe', 'adapter.py:BaseAdapterRegistry.unsubscribe',
@@ -85,6 +86,7 @@ PROPS = {
     'C08': dict(
         title='All lookup entry points agree with lookup() and subscriptions()',
         contracts=['C04_lookup', 'C05_cache', 'C08_entry'], falsifier='C08', modes=['py', 'c'], level='other',
+        cfun=['C05_c'], cfun_only={'C05_c': ['_lookup', '_lookup1', '_adapter_hook', '_lookupAll', '_subscriptions']},
         only={'C04_lookup': ['adapter.py:_lookupAll']},
         level_text='Verified from the real bodies (Python reference): _lookupAll against the recursive override specification; '
                    'LookupBase.lookup returns the cached value or what the uncached search answers, None meaning the default by identity, '
@@ -120,6 +122,7 @@ PROPS = {
     'C05': dict(
         title='Lookup caches are transparent: answers never depend on earlier lookups',
         contracts=['C04_lookup', 'C02_spec', 'C09_registry', 'C05_cache', 'C06_verifying'], falsifier='C05', modes=['py', 'c'], level='other',
+        cfun=['C05_c'],
         cfunctions=['_subcache', '_getcache', '_lookup', '_lookup1', '_adapter_hook', '_lookupAll', '_subscriptions'],
         creturns={'_subcache': 'borrowed', '_getcache': 'borrowed'},
         only={'C04_lookup': ['adapter.py:AdapterLookupBase._uncached_lookup'],
@@ -331,7 +334,7 @@ PROPS = {
     ),
     'C10': dict(
         title='The C accelerator is observationally equivalent to the Python reference',
-        contracts=[], cfun=['C12_c', 'C14_c'], falsifier='C10', modes=['py', 'c'], level='other', differential=True,
+        contracts=[], cfun=['C12_c', 'C14_c', 'C05_c'], falsifier='C10', modes=['py', 'c'], level='other', differential=True,
         cfunctions=['_subcache', '_getcache', '_lookup', '_lookup1', '_adapter_hook', '_lookupAll', '_subscriptions', 'IB__adapt__', 'SB_extends', 'SB_providedBy', 'SB_implementedBy'],
         creturns={'_subcache': 'borrowed', '_getcache': 'borrowed'},
         level_text='Bounded differential check: six generated API programs (about 18k steps: registry chains 3-4 deep of both flavours with a mutation at every level and warm leaf caches, specification queries, comparison and hashing, '
